@@ -357,6 +357,13 @@ pub enum ConfigError {
     /// `enabled` to be present whenever the block is — that single field
     /// disambiguates "preserve current" / "explicit disable" / "enable" on
     /// hot-reconfig partial updates.
+    #[error(
+        "the frontend {frontend} of cluster {cluster_id} is already declared, by this or by another cluster"
+    )]
+    FrontendAlreadyDeclared {
+        cluster_id: String,
+        frontend: String,
+    },
     #[error("invalid health check for cluster {cluster_id}: {reason}")]
     InvalidHealthCheck {
         cluster_id: String,
@@ -2894,6 +2901,9 @@ impl FileConfig {
 pub struct ConfigBuilder {
     file: FileConfig,
     known_addresses: HashMap<SocketAddr, ListenerProtocol>,
+    /// (address, hostname, path rule, method) of every HTTP(S) frontend seen so
+    /// far: the state identifies a frontend by exactly these
+    known_http_frontends: HashSet<(SocketAddr, String, PathRule, Option<String>)>,
     expect_proxy_addresses: HashSet<SocketAddr>,
     built: Config,
 }
@@ -3008,6 +3018,7 @@ impl ConfigBuilder {
         Self {
             file: file_config,
             known_addresses: HashMap::new(),
+            known_http_frontends: HashSet::new(),
             expect_proxy_addresses: HashSet::new(),
             built,
         }
@@ -3081,6 +3092,22 @@ impl ConfigBuilder {
             match cluster_config {
                 ClusterConfig::Http(ref mut http) => {
                     for frontend in http.frontends.iter_mut() {
+                        // the state refuses a second frontend with the same
+                        // identity: reject the file instead of loading half of it
+                        if !self.known_http_frontends.insert((
+                            frontend.address,
+                            frontend.hostname.clone(),
+                            frontend.path.clone(),
+                            frontend.method.clone(),
+                        )) {
+                            return Err(ConfigError::FrontendAlreadyDeclared {
+                                cluster_id: id,
+                                frontend: format!(
+                                    "{};{};{:?}",
+                                    frontend.address, frontend.hostname, frontend.path
+                                ),
+                            });
+                        }
                         match self.known_addresses.get(&frontend.address) {
                             Some(ListenerProtocol::Tcp) => {
                                 return Err(ConfigError::WrongFrontendProtocol(
